@@ -66,8 +66,8 @@ Proof.
   pose proof (take_waiter_ack_fields cfg true (length (peer_sent s)) f
                 (note_close_resp f (set_peer_sent (peer_sent s ++ [f]) s))) as H2.
   rewrite Htw in H2. cbn [fst] in H2. destruct H2 as (Ek & Eq & _ & _).
-  assert (Ek' : ka_log s2 = ka_log s) by (rewrite Ek; unfold note_close_resp; destruct (f_typ f =? _); reflexivity).
-  assert (Eq' : ackq s2 = ackq s) by (rewrite Eq; unfold note_close_resp; destruct (f_typ f =? _); reflexivity).
+  assert (Ek' : ka_log s2 = ka_log s) by (rewrite Ek; unfold note_close_resp; destruct (_ && _); reflexivity).
+  assert (Eq' : ackq s2 = ackq s) by (rewrite Eq; unfold note_close_resp; destruct (_ && _); reflexivity).
   unfold run_handler. rewrite Htyp, (handler_for_keepalive cfg Hack). unfold ack_enqueue. st_simpl_goal.
   rewrite Ek', Eq'.
   destruct (Nat.ltb (length (ackq s)) ack_cap) eqn:E; st_simpl_goal; rewrite ?Ek', ?Eq'.
@@ -208,9 +208,9 @@ Proof.
     rewrite Htw in H2. cbn [fst] in H2. destruct H2 as (Ek & _ & Eh & Ep).
     eapply ka_hist_same; [|apply (ka_hist_dispatch cfg s s2 f h rep Hinv)].
     + same_ka_tac.
-    + rewrite Ek. unfold note_close_resp. destruct (f_typ f =? _); reflexivity.
-    + rewrite Eh. unfold note_close_resp. destruct (f_typ f =? _); reflexivity.
-    + rewrite Ep. unfold note_close_resp. destruct (f_typ f =? _); reflexivity.
+    + rewrite Ek. unfold note_close_resp. destruct (_ && _); reflexivity.
+    + rewrite Eh. unfold note_close_resp. destruct (_ && _); reflexivity.
+    + rewrite Ep. unfold note_close_resp. destruct (_ && _); reflexivity.
   - (* PeerEOF *) unfold step_peer_eof. destruct (reader s); try assumption.
     destruct p.
     + eapply ka_hist_same; [|exact Hinv]. unfold reader_dies. same_ka_tac.
@@ -220,14 +220,14 @@ Proof.
       pose proof (take_waiter_ack_fields cfg false (length (peer_sent s)) f
                     (note_close_resp f (set_peer_sent (peer_sent s ++ [f]) s))) as H2.
       rewrite Htw in H2. cbn [fst] in H2. destruct H2 as (Ek & _ & Eh & Ep).
-      assert (Ek' : ka_log s2 = ka_log s) by (rewrite Ek; unfold note_close_resp; destruct (f_typ f =? _); reflexivity).
-      assert (Eh' : handled s2 = handled s) by (rewrite Eh; unfold note_close_resp; destruct (f_typ f =? _); reflexivity).
-      assert (Ep' : peer_sent s2 = peer_sent s ++ [f]) by (rewrite Ep; unfold note_close_resp; destruct (f_typ f =? _); reflexivity).
+      assert (Ek' : ka_log s2 = ka_log s) by (rewrite Ek; unfold note_close_resp; destruct (_ && _); reflexivity).
+      assert (Eh' : handled s2 = handled s) by (rewrite Eh; unfold note_close_resp; destruct (_ && _); reflexivity).
+      assert (Ep' : peer_sent s2 = peer_sent s ++ [f]) by (rewrite Ep; unfold note_close_resp; destruct (_ && _); reflexivity).
       destruct (rep && (f_len f <=? max_buffered)).
       * eapply ka_hist_same; [|apply (ka_hist_peer_app s f Hinv)].
         unfold reader_dies, same_ka. st_simpl_goal. rewrite Ek', Eh', Ep'. repeat split; reflexivity.
       * eapply ka_hist_same; [|apply (ka_hist_dispatch cfg s s2 f HBAll rep Hinv Ek' Eh' Ep')].
-        unfold reader_dies. same_ka_tac.
+        unfold eof_after_dispatch, reader_dies. same_ka_tac.
   - (* ConnFirst *) unfold step_conn_first. destruct (phase s); try assumption.
     pose proof (ka_hist_peer_app s f Hinv) as H1.
     destruct (max_buffered <? f_len f).
